@@ -240,7 +240,7 @@ def run(chk, replay=None):
         # lattice (skeleton of the production vectors)
         if tier == "thorough" and not replay:
             size = kc.cls_size("NRP", 3)
-            n3 = {"NRP": sorted(rng.sample(range(size), 250))}
+            n3 = {"NRP": sorted(rng.sample(range(size), 600))}
         if case.get("kind") == "skel":
             pts = [(case["ord"], case.get("sub_rx"))]
             jobs = [(case["cls"], case["n"], name, flag, pts) for name, flag in kc.MATS[case["cls"]]]
